@@ -1451,6 +1451,10 @@ package gojq
 //@   flag nosafety
 //@   modifies *
 //@   call update requires (arg0 is []any) && owned(v) && start == 0 && end < len(v) ==> cap(arg0.([]any)) == len(arg0.([]any))
+// only the start of the window is truncated towards zero; the end is rounded up (toIntCeil), like the
+// window .[s:e] reads
+//@   call toInt requires arg0 == s
+//@   call toIntCeil requires arg0 == e
 
 // C02: one step of setpath. With the rest of the path empty, update returns the new value; updateObject
 // returns an object that holds it under the key and everything else the input held under the other
@@ -1460,6 +1464,8 @@ package gojq
 //@   flag nosafety
 //@   modifies *
 //@   ensures len(path) == 0 ==> err == nil && r == n && unchanged()
+// the array index written is the one .[p] reads: toInt of the path element
+//@   call updateArrayIndex requires arg1 == toIntP(p)
 
 //@ func updateObject(v map[string]any, k string, path []any, n any, a allocator) (r any, err error)
 //@   property C02
